@@ -293,23 +293,26 @@ def cls_trailing_repeat(d):
     return len(b) >= 2 and b[-1] == b[-2] and not (len(a) >= 2 and a[-1] == a[-2])
 
 
-def classing_error(spec, factor=10):
-    """relative difference of the P_RAJ lifetime between the requested number of P_RAJ classes and `factor` times as many"""
+def classing_error(spec):
+    """relative distance of the P_RAJ lifetime from the lifetimes with 10 and 100 times as many P_RAJ classes (the larger one)"""
     nb = int(spec['params'].get('n_bins', 200))
-    fine = dict(spec, params=dict(spec['params'], n_bins=nb * factor))
-    o = fkmnl.run_jobs([('assess', spec), ('assess', fine)])
+    fine = [dict(spec, params=dict(spec['params'], n_bins=nb * f)) for f in (10, 100)]
+    o = fkmnl.run_jobs([('assess', spec)] + [('assess', f) for f in fine])
     if any('error' in x for x in o):
         return 0.0
-    a, b = o[0]['RAJ_life'][0], o[1]['RAJ_life'][0]
-    if not (math.isfinite(a) and math.isfinite(b)) or b == 0:
-        return 0.0
-    return abs(a - b) / b
+    a = o[0]['RAJ_life'][0]
+    err = 0.0
+    for x in o[1:]:
+        b = x['RAJ_life'][0]
+        if math.isfinite(a) and math.isfinite(b) and b > 0:
+            err = max(err, abs(a - b) / b)
+    return err
 
 
 def cls_praj_classing(d):
     """P_RAJ lifetime (finite) growing by less than the classing error of the input: the P_RAJ damage sum is evaluated on
     n_bins logarithmic classes (DamageCalculatorPRAJ), the class of the current fatigue limit enters through its mid-point; the
-    resulting error (measured as |life(n_bins) - life(10 n_bins)| / life) is a saw-tooth in every continuous input"""
+    resulting error (measured as the larger of |life(n_bins) - life(k n_bins)| / life(k n_bins), k = 10, 100) is a saw-tooth in every continuous input"""
     it = d['item']
     if it['kind'] not in ('scale', 'rough', 'pa') or d['measure'] != 'RAJ_life':
         return False
@@ -323,7 +326,26 @@ def cls_praj_classing(d):
     return inc <= err
 
 
+def cls_hcm_minmax_first_node(d):
+    """P_RAJ quantity of a batch point other than the first whose recorded extreme strains of the load history (epsilon_min_LF /
+    epsilon_max_LF, used by the crack-opening logic of P_RAJ) differ from those of its single assessment: the HCM updates them for
+    all points by comparing the FIRST point's strain (_hcm_update_min_max_strain_values); with different amounts of plasticity the
+    points do not reach a new extreme strain at the same samples"""
+    it = d['item']
+    if it['kind'] != 'batch' or it['i'] == 0 or not d['measure'].startswith('RAJ'):
+        return False
+    a, b = fkmnl.run_jobs([('assess', s) for s in it['specs']])
+    if 'error' in a or 'error' in b:
+        return False
+    for col in ('epsilon_min_LF', 'epsilon_max_LF'):
+        x, y = a['RAJ_col'][col][0], b['RAJ_col'][col][it['i']]
+        if len(x) != len(y) or any(not close(u, v, 1e-9) for u, v in zip(x, y)):
+            return True
+    return False
+
+
 def register_classes(res):
+    res.classes['hcm_minmax_strain_first_node'] = cls_hcm_minmax_first_node
     res.classes['praj_shared_class_max'] = cls_praj_shared_class_max
     res.classes['class_edge_batch'] = cls_class_edge_batch
     res.classes['class_edge_scale'] = cls_class_edge_scale
@@ -640,8 +662,8 @@ def run(res):
     res.assumptions += ['float rounding is outside the theorems; relations are compared at 1e-9 relative, class-edge effects (1e-3..1e-1) are reported, not absorbed',
                         'loads of all points of a batch are positive multiples of one sequence (precondition of the vectorised assessment)',
                         'P_RAJ crack-opening loop / class summation not modelled beyond the dependence on the shared class maximum']
-    res.cov['rule'] = ('cases: sequence = library test sequence (round numbers, loads on class edges) | the same jittered by <= 3 % and rescaled | random (2..16 samples, ' 'ties: random with repeated / nearly repeated extremes, '
-                       'amplitude 120..420, some with offset); parameters: load distribution normal/lognormal/blanket/none, P_A from the FKM table or free, P_L, R_m, material group, '
+    res.cov['rule'] = ('cases: sequence = library test sequence (round numbers, loads on class edges) | the same jittered by <= 3 % and rescaled | random (2..16 samples, '
+                       'amplitude 120..420, some with offset) | ties (random with repeated / nearly repeated extremes); parameters: load distribution normal/lognormal/blanket/none, P_A from the FKM table or free, P_L, R_m, material group, '
                        'R_z, K_p, c, G; per case the relations batch (2..5 points, ratios 0.2..3, uniform or per-point G, reference point at a random position; quick: 2 points compared, '
                        'thorough: all), refine (0..3 samples per segment: interpolated or repeated), scale (c in 1+1e-4..2), rougher R_z, smaller P_A, N_10<=N_50<=N_90 when P_A=0.5; '
                        'non-trivial = relation instance with a finite positive lifetime on one side (distinct spec pairs counted)')
